@@ -590,3 +590,8 @@ func (in *Interp) formatOperand(fr *frame, arg Iface, verb byte) Value {
 	}
 	return nil
 }
+
+// parseSymCIDR inverts NetStr: net.ParseCIDR(NetStr(ip16, ones, fam)).
+func (in *Interp) parseSymCIDR(s *SymStr) Value {
+	return nil
+}
